@@ -11,7 +11,8 @@ RULE = ("Pairs (self, other) of generated structures with all term kinds, tables
         "compatible combination, extra columns on either side; for |self|<=4, |other|<=3 EVERY partial injection "
         "other->self is used as identity map; modes: default type merging, explicit shared offsets (0,0,0,0,0) with "
         "shared tables, one extend_types call followed by two extensions with the same fragment; override cases put a "
-        "term of `other` on exactly the atoms of an existing term, forwards or backwards, for each kind. After each "
+        "term of `other` on exactly the atoms of an existing term, forwards or backwards, for each kind. Structures of 1e5..3e5 atoms whose terms sit on the last atoms, fragment "
+        "attached one or two places beside an existing term (large index values). After each "
         "real extend the object is resolved and compared with the reference model. Non-trivial: identity map non-empty "
         "or an existing term superseded; distinct by (generator seed, mode).")
 ASSUMPTIONS = ["per kind the two structures are compatible (both tables / neither / one side has no terms); pair tables on both or neither side",
@@ -40,7 +41,32 @@ def cases(tier, seed):
         out.append({"kind": "random", "ns": int(rng.integers(4, 13)), "no": int(rng.integers(1, 9)) if j % 2 else int(rng.integers(4, 9)),
                     "mode": ["default", "shared", "repeat"][j % 3],
                     "s": int(rng.integers(1 << 30)), "override": atomsgen.KNAMES[(j // 2) % 4] if j % 2 == 0 else None})
+    # structures with more than 1e5 / 2e5 atoms: atom indices are large numbers (float tolerances, packed keys, narrow
+    # integer types show only here); terms sit on the last atoms, next to the ones the fragment is attached to
+    for j in range(6 if tier == "quick" else 60):
+        out.append({"kind": "large", "ns": int([100200, 131100, 200300, 262200, 100007, 310000][j % 6] + rng.integers(0, 50)), "no": int(rng.integers(4, 7)),
+                    "mode": ["default", "repeat", "shared"][j % 3], "s": int(rng.integers(1 << 30)), "mapped": j % 4 != 3})
     return out
+
+
+def _build_large(rng, n):
+    from mofun import Atoms
+    top = 16
+    nt = 2
+    atom_types = np.zeros(n, dtype=int)
+    atom_types[-top:] = rng.integers(0, nt, top)
+    atom_types[:2] = [0, 1]
+    kw = dict(atom_types=atom_types, positions=rng.uniform(0, 60, (n, 3)), atom_type_elements=["C", "O"], atom_type_masses=[12.011, 15.999],
+              atom_type_labels=["S_C0", "S_O1"], charges=1000.0 + np.arange(n) / 64.0, groups=np.zeros(n, dtype=int), cell=np.diag([60.0, 60.0, 60.0]))
+    for kind in atomsgen.KNAMES:
+        w = atomsgen.WIDTH[kind]
+        terms = []
+        for start in sorted(set(int(x) for x in rng.integers(n - top, n - w - 2, 3))):
+            terms.append(tuple(range(start, start + w)) if rng.integers(2) else tuple(range(start + w - 1, start - 1, -1)))
+        kw[atomsgen.ARR[kind]] = terms
+        kw["%s_types" % kind] = [int(x) for x in rng.integers(0, 2, len(terms))]
+        kw["%s_type_coeffs" % kind] = ["S_%s_%d 1.%d" % (kind, t, t) for t in range(2)]
+    return Atoms(**kw)
 
 
 def _compat_opts(rng, a_self):
@@ -180,6 +206,41 @@ def run_one(rng, a, o, idx_map, mode, ctx, st):
 def run_case(case, ctx):
     rng = np.random.default_rng(case["s"])
     st = ctx.stats
+    if case["kind"] == "large":
+        n = case["ns"]
+        a = _build_large(rng, n)
+        if case["mode"] == "shared":
+            from mofun import Atoms
+            no = case["no"]
+            kw = dict(atom_types=[int(x) for x in rng.integers(0, 2, no)], positions=rng.uniform(-2, 2, (no, 3)), atom_type_elements=list(a.atom_type_elements),
+                      atom_type_masses=list(a.atom_type_masses), atom_type_labels=list(a.atom_type_labels), charges=[atomsgen.uid(2000.0, i) for i in range(no)])
+            for kind in atomsgen.KNAMES:
+                kw[atomsgen.ARR[kind]] = [tuple(range(atomsgen.WIDTH[kind]))]
+                kw["%s_types" % kind] = [1]
+                kw["%s_type_coeffs" % kind] = list(getattr(a, "%s_type_coeffs" % kind))
+            o = Atoms(**kw)
+        else:
+            o = atomsgen.gen_atoms(rng, case["no"], tag="O", id_base=2000.0, cell=None, kinds={k: 2 for k in atomsgen.KNAMES}, tables={k: True for k in atomsgen.KNAMES},
+                                   pair=False, extras={})
+            for kind in atomsgen.KNAMES:      # one term on the fragment's first atoms in sequence
+                arr = np.asarray(getattr(o, atomsgen.ARR[kind])).reshape(-1, atomsgen.WIDTH[kind])
+                arr[0] = np.arange(atomsgen.WIDTH[kind])
+                setattr(o, atomsgen.ARR[kind], arr)
+        idx_map = {}
+        if case["mapped"]:
+            # attach the fragment's first atoms to consecutive atoms one or two places beside an existing term
+            kind = atomsgen.KNAMES[int(rng.integers(4))]
+            arr = np.asarray(getattr(a, atomsgen.ARR[kind])).reshape(-1, atomsgen.WIDTH[kind])
+            t = sorted(int(x) for x in arr[int(rng.integers(len(arr)))])
+            shift = int(rng.choice([1, 2, -1, -2])) if n > 200000 else int(rng.choice([1, -1]))
+            tgt = [x + shift for x in t]
+            if max(tgt) < n and min(tgt) >= 0:
+                idx_map = {i: tgt[i] for i in range(len(tgt))}
+        run_one(rng, a, o, idx_map, case["mode"], ctx, st)
+        st.count("extensions_of_structures_with_more_than_1e5_atoms")
+        st.seen("large_size_class", n // 100000)
+        ctx.nontrivial([case["s"], case["mode"], "large"])
+        return
     a, o = _build_pair(rng, case["ns"], case["no"], case["mode"], ["ortho", None][case["s"] % 2])
     if case["kind"] == "exhaustive":
         maps = atomsgen.partial_injections(case["no"], case["ns"])
@@ -221,6 +282,8 @@ def requirements(stats, tier):
     for m in ("default", "shared", "repeat"):
         if not stats.has("mode", m):
             need.append("mode %s not observed" % m)
+    if stats.get("extensions_of_structures_with_more_than_1e5_atoms") < (6 if tier == "quick" else 60) or stats.nseen("large_size_class") < 3:
+        need.append("structures with more than 1e5 atoms: %d extensions" % stats.get("extensions_of_structures_with_more_than_1e5_atoms"))
     ov = stats.sets.get("override", set())
     for kind in atomsgen.KNAMES:
         if not any(x.startswith(kind + ":forward") for x in ov) or not any(x.startswith(kind + ":reversed") for x in ov):
